@@ -2,6 +2,7 @@ import IpcHub.Drv.Util
 import IpcHub.Model.CodecInst
 import IpcHub.Spec.H264Syntax
 import IpcHub.Spec.AscSyntax
+import IpcHub.Spec.HevcSyntax
 /-!
 Driver of C15 (codec parameter parsing).  Ops (the leading `c15` is already stripped):
 
@@ -13,6 +14,9 @@ Driver of C15 (codec parameter parsing).  Ops (the leading `c15` is already stri
 * `h264enc k=v …`      → `bytes=<hex> spec=<w,h,fixed,fps>` then the same as h264dec for those bytes
 * `ascdec <hex>`       → `ok meta=<channels,rate> dump=<fields>` | `err=<kind>`
 * `ascenc k=v …`       → `bytes=<hex> spec=<channels,rate>` then the same as ascdec for those bytes
+* `hevcspsdec <hex>` / `hevcvpsdec <hex>` → `ok [dims=…] dump=<fields>` | `err=<kind>`
+* `hevcspsenc k=v …`   → `bytes=<hex> spec=<w,h,fixed,fps>` then the same as hevcspsdec for those bytes
+* `hevcvpsenc k=v …`   → `bytes=<hex> spec=<header fields>` then the same as hevcvpsdec
 -/
 namespace IpcHub.Drv.C15
 open IpcHub.Drv IpcHub.Bits
@@ -196,6 +200,248 @@ def ascenc (kv : List (String × String)) : String :=
   let bytes := encAsc s
   s!"bytes={bytesToHex bytes} spec={streamChannels s},{streamRate s} " ++ ascdec bytes
 
+/-! ### HEVC -/
+
+namespace HevcDump
+open IpcHub.Hevc
+
+def profile (p : Profile) : String :=
+  nats [p.profileSpace, p.tierFlag, p.profileIdc, p.compat, p.progressive, p.interlaced, p.nonPacked, p.frameOnly,
+        p.max12, p.max10, p.max8, p.max422, p.max420, p.maxMono, p.intra, p.onePic, p.lowerBitRate, p.max14, p.inbld]
+
+def ptl (p : Ptl) : String :=
+  profile p.general ++ "," ++ nats [p.constraintFlags, p.levelIdc] ++ ",[" ++
+  joinWith "|" (p.subLayers.map (fun s => nats [s.profilePresent, s.levelPresent] ++ "," ++ profile s.profile ++ "," ++ toString s.levelIdc)) ++ "]"
+
+def cpb (l : List CpbEntry) : String :=
+  "[" ++ joinWith "." (l.map (fun (a, b, c, d, e) => s!"{a}/{b}/{c}/{d}/{e}")) ++ "]"
+
+def hrd (h : Hrd) : String :=
+  nats [h.nalHrdParametersPresentFlag, h.vclHrdParametersPresentFlag, h.subPicHrdParamsPresentFlag, h.tickDivisorMinus2,
+        h.duCpbRemovalDelayIncrementLengthMinus1, h.subPicCpbParamsInPicTimingSeiFlag, h.dpbOutputDelayDuLengthMinus1,
+        h.bitRateScale, h.cpbSizeScale, h.cpbSizeDuScale, h.initialCpbRemovalDelayLengthMinus1,
+        h.auCpbRemovalDelayLengthMinus1, h.dpbOutputDelayLengthMinus1] ++ ",{" ++
+  joinWith "|" (h.subLayers.map (fun s => nats [s.fixedPicRateGeneralFlag, s.fixedPicRateWithinCvsFlag,
+    s.elementalDurationInTcMinus1, s.lowDelayHrdFlag, s.cpbCntMinus1] ++ "," ++ cpb s.nal ++ "," ++ cpb s.vcl)) ++ "}"
+
+def ordering (l : List IpcHub.Hevc.Ordering) : String :=
+  "[" ++ joinWith "." (l.map (fun (a, b, c) => s!"{a}/{b}/{c}")) ++ "]"
+
+def pairs (l : List (Nat × Nat)) : String :=
+  "[" ++ joinWith "." (l.map (fun (a, b) => s!"{a}/{b}")) ++ "]"
+
+def rps (r : StRps) : String :=
+  nats [r.interRefPicSetPredictionFlag, r.deltaIdxMinus1, r.deltaRpsSign, r.absDeltaRpsMinus1] ++ ",[" ++
+  joinWith "." (r.usedByCurrPicFlag.map toString) ++ "],[" ++ joinWith "." (r.useDeltaFlag.map toString) ++ "]," ++
+  nats [r.numNegativePics, r.numPositivePics] ++ "," ++ pairs r.s0 ++ "," ++ pairs r.s1
+
+def scaling (l : List (List ScalingEntry)) : String :=
+  joinWith "|" (l.map (fun m => joinWith ";" (m.map (fun e =>
+    s!"{e.predModeFlag},{e.predMatrixIdDelta},{e.dcCoefMinus8}," ++ dotInts (trimZeros e.deltaCoeff)))))
+
+def vui (v : Vui) : String :=
+  nats [v.aspectRatioInfoPresentFlag, v.aspectRatioIdc, v.sarWidth, v.sarHeight, v.overscanInfoPresentFlag,
+        v.overscanAppropriateFlag, v.videoSignalTypePresentFlag, v.videoFormat, v.videoFullRangeFlag,
+        v.colourDescriptionPresentFlag, v.colourPrimaries, v.transferCharacteristics, v.matrixCoefficients,
+        v.chromaLocInfoPresentFlag, v.chromaSampleLocTypeTopField, v.chromaSampleLocTypeBottomField,
+        v.neutralChromaIndicationFlag, v.fieldSeqFlag, v.frameFieldInfoPresentFlag, v.defaultDisplayWindowFlag,
+        v.defDispWinLeftOffset, v.defDispWinRightOffset, v.defDispWinTopOffset, v.defDispWinBottomOffset,
+        v.vuiTimingInfoPresentFlag, v.vuiNumUnitsInTick, v.vuiTimeScale, v.vuiPocProportionalToTimingFlag,
+        v.vuiNumTicksPocDiffOneMinus1, v.vuiHrdParametersPresentFlag, v.bitstreamRestrictionFlag,
+        v.tilesFixedStructureFlag, v.motionVectorsOverPicBoundariesFlag, v.restrictedRefPicListsFlag,
+        v.minSpatialSegmentationIdc, v.maxBytesPerPicDenom, v.maxBitsPerMinCuDenom, v.log2MaxMvLengthHorizontal,
+        v.log2MaxMvLengthVertical] ++ ";R=" ++ hrd v.hrd
+
+def sps (s : RawSps) : String :=
+  let h := s.head; let b := s.body
+  "H=" ++ nats [h.nal.nalUnitType, h.nal.nuhLayerId, h.nal.nuhTemporalIdPlus1, h.spsVideoParameterSetId,
+    h.spsMaxSubLayersMinus1, h.spsTemporalIdNestingFlag, h.spsSeqParameterSetId, h.chromaFormatIdc,
+    h.separateColourPlaneFlag, h.picWidthInLumaSamples, h.picHeightInLumaSamples, h.conformanceWindowFlag,
+    h.confWinLeftOffset, h.confWinRightOffset, h.confWinTopOffset, h.confWinBottomOffset] ++
+  ";T=" ++ ptl h.ptl ++
+  ";B=" ++ nats [b.bitDepthLumaMinus8, b.bitDepthChromaMinus8, b.log2MaxPicOrderCntLsbMinus4,
+    b.spsSubLayerOrderingInfoPresentFlag] ++ "," ++ ordering b.ordering ++ "," ++
+    nats [b.log2MinLumaCodingBlockSizeMinus3, b.log2DiffMaxMinLumaCodingBlockSize, b.log2MinLumaTransformBlockSizeMinus2,
+      b.log2DiffMaxMinLumaTransformBlockSize, b.maxTransformHierarchyDepthInter, b.maxTransformHierarchyDepthIntra,
+      b.scalingListEnabledFlag, b.spsScalingListDataPresentFlag, b.ampEnabledFlag, b.sampleAdaptiveOffsetEnabledFlag,
+      b.pcmEnabledFlag, b.pcmSampleBitDepthLumaMinus1, b.pcmSampleBitDepthChromaMinus1,
+      b.log2MinPcmLumaCodingBlockSizeMinus3, b.log2DiffMaxMinPcmLumaCodingBlockSize, b.pcmLoopFilterDisabledFlag,
+      b.numShortTermRefPicSets, b.longTermRefPicsPresentFlag, b.numLongTermRefPicsSps, b.spsTemporalMvpEnabledFlag,
+      b.strongIntraSmoothingEnabledFlag, b.vuiParametersPresentFlag, b.spsExtensionPresentFlag, b.spsRangeExtensionFlag,
+      b.spsMultilayerExtensionFlag, b.sps3dExtensionFlag, b.spsSccExtensionFlag, b.spsExtension4bits] ++
+  ";S=" ++ scaling b.scalingList ++
+  ";P=" ++ joinWith "|" (b.stRefPicSets.map rps) ++
+  ";L=" ++ pairs b.longTerm ++
+  ";V=" ++ vui b.vui
+
+def vps (v : RawVps) : String :=
+  "H=" ++ nats [v.nal.nalUnitType, v.nal.nuhLayerId, v.nal.nuhTemporalIdPlus1, v.vpsVideoParameterSetId,
+    v.vpsBaseLayerInternalFlag, v.vpsBaseLayerAvailableFlag, v.vpsMaxLayersMinus1, v.vpsMaxSubLayersMinus1,
+    v.vpsTemporalIdNestingFlag, v.vpsSubLayerOrderingInfoPresentFlag, v.vpsMaxLayerId, v.vpsNumLayerSetsMinus1,
+    v.vpsTimingInfoPresentFlag, v.vpsNumUnitsInTick, v.vpsTimeScale, v.vpsPocProportionalToTimingFlag,
+    v.vpsNumTicksPocDiffOneMinus1, v.vpsNumHrdParameters, v.vpsExtensionFlag] ++
+  ";T=" ++ ptl v.ptl ++ ";O=" ++ ordering v.ordering ++
+  ";I=" ++ joinWith "|" (v.layerIdIncluded.map (fun r => joinWith "" (r.map toString))) ++
+  ";R=" ++ joinWith "#" (v.hrds.map (fun (i, c, h) => s!"{i},{c}," ++ hrd h))
+
+end HevcDump
+
+open IpcHub.Hevc in
+def hevcDimsStr (d : IpcHub.Hevc.VideoDims) : String := s!"{d.width},{d.height},{boolStr d.fixed},{fpsStr d.fps}"
+
+open IpcHub.Hevc in
+def hevcspsdec (bytes : List UInt8) : String :=
+  match decodeSps genCfg bytes with
+  | .ok s => s!"ok dims={hevcDimsStr (dimsOf s)} dump={HevcDump.sps s}"
+  | .error e => s!"err={faultStr e}"
+
+open IpcHub.Hevc in
+def hevcvpsdec (bytes : List UInt8) : String :=
+  match decodeVps genCfg bytes with
+  | .ok v => s!"ok dump={HevcDump.vps v}"
+  | .error e => s!"err={faultStr e}"
+
+/-! ### HEVC syntax trees from key=value input -/
+
+namespace HevcIn
+open IpcHub.HevcSyntax
+
+def natAt (l : List String) (i : Nat) : Nat := ((l[i]?).getD "").toNat?.getD 0
+def boolAt (l : List String) (i : Nat) : Bool := (l[i]?).getD "" == "1"
+def splitNE (sep : String) (s : String) : List String := if s == "" then [] else s.splitOn sep
+
+/-- `space,tier,idc,compat,prog,inter,np,fo,c43,inbld` starting at `o` -/
+def profileAt (l : List String) (o : Nat) : ProfileSyn :=
+  { profile_space := natAt l o, tier_flag := boolAt l (o + 1), profile_idc := natAt l (o + 2), compat := natAt l (o + 3),
+    progressive_source_flag := boolAt l (o + 4), interlaced_source_flag := boolAt l (o + 5),
+    non_packed_constraint_flag := boolAt l (o + 6), frame_only_constraint_flag := boolAt l (o + 7),
+    constraint43 := natAt l (o + 8), inbld := boolAt l (o + 9) }
+
+def ptlOf (kv : List (String × String)) : PtlSyn :=
+  { general := profileAt ((getS kv "gp").splitOn ",") 0, general_level_idc := getN kv "glevel",
+    sub_layers := (splitNE "|" (getS kv "subs")).map (fun t =>
+      let l := t.splitOn ","
+      { profile_present_flag := boolAt l 0, level_present_flag := boolAt l 1, profile := profileAt l 2, level_idc := natAt l 12 }) }
+
+def triples (s : String) : List (Nat × Nat × Nat) :=
+  (splitNE "." s).map (fun t => let l := t.splitOn "/"; (natAt l 0, natAt l 1, natAt l 2))
+
+def pairsNB (s : String) : List (Nat × Bool) :=
+  (splitNE "." s).map (fun t => let l := t.splitOn "/"; (natAt l 0, boolAt l 1))
+
+def pairsBB (s : String) : List (Bool × Bool) :=
+  (splitNE "." s).map (fun t => let l := t.splitOn "/"; (boolAt l 0, boolAt l 1))
+
+def cpbs (s : String) : List CpbSyn :=
+  (splitNE "." s).map (fun t => let l := t.splitOn "/";
+    { bit_rate_value_minus1 := natAt l 0, cpb_size_value_minus1 := natAt l 1, cpb_size_du_value_minus1 := natAt l 2,
+      bit_rate_du_value_minus1 := natAt l 3, cbr_flag := boolAt l 4 })
+
+/-- hrd under prefix `p`: p.c = `nal,vcl,sp,td,du,sei,dd,brs,css,cds,i1,i2,i3`, p.s = `g,w,el,low,cnt,<nal>,<vcl>|…` -/
+def hrdOf (kv : List (String × String)) (p : String) : HrdSyn :=
+  let c := (getS kv (p ++ "c")).splitOn ","
+  { nal_hrd_parameters_present_flag := boolAt c 0, vcl_hrd_parameters_present_flag := boolAt c 1,
+    sub_pic_hrd_params_present_flag := boolAt c 2, tick_divisor_minus2 := natAt c 3,
+    du_cpb_removal_delay_increment_length_minus1 := natAt c 4, sub_pic_cpb_params_in_pic_timing_sei_flag := boolAt c 5,
+    dpb_output_delay_du_length_minus1 := natAt c 6, bit_rate_scale := natAt c 7, cpb_size_scale := natAt c 8,
+    cpb_size_du_scale := natAt c 9, initial_cpb_removal_delay_length_minus1 := natAt c 10,
+    au_cpb_removal_delay_length_minus1 := natAt c 11, dpb_output_delay_length_minus1 := natAt c 12,
+    sub_layers := (splitNE "|" (getS kv (p ++ "s"))).map (fun t =>
+      let l := t.splitOn ","
+      { fixed_pic_rate_general_flag := boolAt l 0, fixed_pic_rate_within_cvs_flag := boolAt l 1,
+        elemental_duration_in_tc_minus1 := natAt l 2, low_delay_hrd_flag := boolAt l 3, cpb_cnt_minus1 := natAt l 4,
+        nal := cpbs ((l[5]?).getD ""), vcl := cpbs ((l[6]?).getD "") }) }
+
+/-- `0,delta` | `1,dc,c.c.c` separated by `;` -/
+def scalingOf (s : String) : List ScalingSyn :=
+  (splitNE ";" s).map (fun t =>
+    let l := t.splitOn ","
+    if boolAt l 0 then .coded (((l[1]?).getD "").toInt?.getD 0) (parseInts ((l[2]?).getD "")) else .pred (natAt l 1))
+
+/-- `e:<s0>:<s1>` | `i:<sign>:<abs>:<flags>` separated by `|` -/
+def rpsOf (s : String) : List StRpsSyn :=
+  (splitNE "|" s).map (fun t =>
+    let l := t.splitOn ":"
+    if (l[0]?).getD "" == "i" then .inter (boolAt l 1) (natAt l 2) (pairsBB ((l[3]?).getD ""))
+    else .explicit (pairsNB ((l[1]?).getD "")) (pairsNB ((l[2]?).getD "")))
+
+def vuiOf (kv : List (String × String)) : VuiSyn :=
+  { aspect_ratio_info_present_flag := getB kv "ar", aspect_ratio_idc := getN kv "aridc", sar_width := getN kv "sarw",
+    sar_height := getN kv "sarh", overscan_info_present_flag := getB kv "os", overscan_appropriate_flag := getB kv "osa",
+    video_signal_type_present_flag := getB kv "vs", video_format := getN kv "vfmt", video_full_range_flag := getB kv "vfr",
+    colour_description_present_flag := getB kv "cd", colour_primaries := getN kv "cprim",
+    transfer_characteristics := getN kv "ctrans", matrix_coeffs := getN kv "cmat", chroma_loc_info_present_flag := getB kv "loc",
+    chroma_sample_loc_type_top_field := getN kv "loct", chroma_sample_loc_type_bottom_field := getN kv "locb",
+    neutral_chroma_indication_flag := getB kv "neutral", field_seq_flag := getB kv "fseq",
+    frame_field_info_present_flag := getB kv "ffi", default_display_window_flag := getB kv "ddw",
+    def_disp_win_left_offset := getN kv "ddl", def_disp_win_right_offset := getN kv "ddr",
+    def_disp_win_top_offset := getN kv "ddt", def_disp_win_bottom_offset := getN kv "ddb",
+    vui_timing_info_present_flag := getB kv "ti", vui_num_units_in_tick := getN kv "nut", vui_time_scale := getN kv "ts",
+    vui_poc_proportional_to_timing_flag := getB kv "pp", vui_num_ticks_poc_diff_one_minus1 := getN kv "nticks",
+    vui_hrd_parameters_present_flag := getB kv "hrd", hrd := hrdOf kv "h.",
+    bitstream_restriction_flag := getB kv "br", tiles_fixed_structure_flag := getB kv "tfs",
+    motion_vectors_over_pic_boundaries_flag := getB kv "mv", restricted_ref_pic_lists_flag := getB kv "rrl",
+    min_spatial_segmentation_idc := getN kv "mss", max_bytes_per_pic_denom := getN kv "r1",
+    max_bits_per_min_cu_denom := getN kv "r2", log2_max_mv_length_horizontal := getN kv "r3",
+    log2_max_mv_length_vertical := getN kv "r4" }
+
+def spsOf (kv : List (String × String)) : SpsSyn :=
+  { nuh_layer_id := getN kv "layer", nuh_temporal_id_plus1 := getN kv "tid", sps_video_parameter_set_id := getN kv "vid",
+    sps_temporal_id_nesting_flag := getB kv "nest", ptl := ptlOf kv, sps_seq_parameter_set_id := getN kv "id",
+    chroma_format_idc := getN kv "cf", separate_colour_plane_flag := getB kv "sep",
+    pic_width_in_luma_samples := getN kv "w", pic_height_in_luma_samples := getN kv "h",
+    conformance_window_flag := getB kv "cw", conf_win_left_offset := getN kv "cl", conf_win_right_offset := getN kv "cr",
+    conf_win_top_offset := getN kv "ct", conf_win_bottom_offset := getN kv "cb", bit_depth_luma_minus8 := getN kv "bdl",
+    bit_depth_chroma_minus8 := getN kv "bdc", log2_max_pic_order_cnt_lsb_minus4 := getN kv "lsb",
+    sps_sub_layer_ordering_info_present_flag := getB kv "oflag", ordering := triples (getS kv "ord"),
+    log2_min_luma_coding_block_size_minus3 := getN kv "mincb", log2_diff_max_min_luma_coding_block_size := getN kv "diffcb",
+    log2_min_luma_transform_block_size_minus2 := getN kv "mintb", log2_diff_max_min_luma_transform_block_size := getN kv "difftb",
+    max_transform_hierarchy_depth_inter := getN kv "thinter", max_transform_hierarchy_depth_intra := getN kv "thintra",
+    scaling_list_enabled_flag := getB kv "sle", sps_scaling_list_data_present_flag := getB kv "sldp",
+    scaling_list := scalingOf (getS kv "sl"), amp_enabled_flag := getB kv "amp",
+    sample_adaptive_offset_enabled_flag := getB kv "sao", pcm_enabled_flag := getB kv "pcm",
+    pcm_sample_bit_depth_luma_minus1 := getN kv "pcm1", pcm_sample_bit_depth_chroma_minus1 := getN kv "pcm2",
+    log2_min_pcm_luma_coding_block_size_minus3 := getN kv "pcm3", log2_diff_max_min_pcm_luma_coding_block_size := getN kv "pcm4",
+    pcm_loop_filter_disabled_flag := getB kv "pcm5", st_ref_pic_sets := rpsOf (getS kv "rps"),
+    long_term_ref_pics_present_flag := getB kv "ltp", long_term := pairsNB (getS kv "lt"),
+    sps_temporal_mvp_enabled_flag := getB kv "mvp", strong_intra_smoothing_enabled_flag := getB kv "sis",
+    vui_parameters_present_flag := getB kv "vui", vui := vuiOf kv, sps_extension_present_flag := getB kv "ext",
+    sps_range_extension_flag := getB kv "e1", sps_multilayer_extension_flag := getB kv "e2",
+    sps_3d_extension_flag := getB kv "e3", sps_scc_extension_flag := getB kv "e4", sps_extension_4bits := getN kv "e5" }
+
+/-- rows `0101|1100` -/
+def rowsOf (s : String) : List (List Bool) := (splitNE "|" s).map (fun r => r.toList.map (· == '1'))
+
+/-- VPS hrds: kv `nhrd=n`, `hrdidx=i.i.i`, `cprms=1.0.1`, hrd i under prefix `h<i>.` -/
+def vpsHrds (kv : List (String × String)) : List (Nat × Bool × HrdSyn) :=
+  let idx := (splitNE "." (getS kv "hrdidx")).map (fun x => x.toNat?.getD 0)
+  let cp := (splitNE "." (getS kv "cprms")).map (· == "1")
+  (List.range (getN kv "nhrd")).map (fun i => (idx.getD i 0, cp.getD i true, hrdOf kv s!"h{i}."))
+
+def vpsOf (kv : List (String × String)) : VpsSyn :=
+  { nuh_layer_id := getN kv "layer", nuh_temporal_id_plus1 := getN kv "tid", vps_video_parameter_set_id := getN kv "vid",
+    vps_base_layer_internal_flag := getB kv "bli", vps_base_layer_available_flag := getB kv "bla",
+    vps_max_layers_minus1 := getN kv "ml", vps_temporal_id_nesting_flag := getB kv "nest", ptl := ptlOf kv,
+    vps_sub_layer_ordering_info_present_flag := getB kv "oflag", ordering := triples (getS kv "ord"),
+    vps_max_layer_id := getN kv "mli", layer_sets := rowsOf (getS kv "rows"),
+    vps_timing_info_present_flag := getB kv "ti", vps_num_units_in_tick := getN kv "nut", vps_time_scale := getN kv "ts",
+    vps_poc_proportional_to_timing_flag := getB kv "pp", vps_num_ticks_poc_diff_one_minus1 := getN kv "nticks",
+    hrds := vpsHrds kv, vps_extension_flag := getB kv "ext" }
+
+end HevcIn
+
+open IpcHub.HevcSyntax in
+def hevcspsenc (kv : List (String × String)) : String :=
+  let s := HevcIn.spsOf kv
+  let bytes := encSpsNal s
+  s!"bytes={bytesToHex bytes} spec={croppedWidth s},{croppedHeight s},{boolStr (fixedFrameRate s)},{fpsStr (frameRate s)} " ++ hevcspsdec bytes
+
+open IpcHub.HevcSyntax in
+def hevcvpsenc (kv : List (String × String)) : String :=
+  let v := HevcIn.vpsOf kv
+  let bytes := encVpsNal v
+  s!"bytes={bytesToHex bytes} spec=32,{v.nuh_layer_id},{v.nuh_temporal_id_plus1},{v.vps_video_parameter_set_id},{boolStr v.vps_base_layer_internal_flag},{boolStr v.vps_base_layer_available_flag},{v.vps_max_layers_minus1},{v.ptl.sub_layers.length},{boolStr v.vps_temporal_id_nesting_flag}, " ++ hevcvpsdec bytes
+
 def handle : List String → String
   | "bits" :: hex :: ops =>
     match hexToBytes hex with
@@ -215,6 +461,16 @@ def handle : List String → String
     | some bs => ascdec bs
     | none => "bad-op"
   | "ascenc" :: kv => ascenc (kvOf kv)
+  | ["hevcspsdec", hex] =>
+    match hexToBytes hex with
+    | some bs => hevcspsdec bs
+    | none => "bad-op"
+  | "hevcspsenc" :: kv => hevcspsenc (kvOf kv)
+  | "hevcvpsenc" :: kv => hevcvpsenc (kvOf kv)
+  | ["hevcvpsdec", hex] =>
+    match hexToBytes hex with
+    | some bs => hevcvpsdec bs
+    | none => "bad-op"
   | _ => "bad-op"
 
 end IpcHub.Drv.C15
